@@ -203,20 +203,80 @@ def has_filter_over_infinite(it):
     return False
 
 
+def _every_iteration(loop_ev, x):
+    """x runs on every iteration that does not leave the loop at its head: its path condition is the loop's own plus the guard"""
+    return len(x['pc']) <= len(loop_ev['pc']) + 1
+
+
+def _need_push(field):
+    def f(loop_ev, nid, inner):
+        return any(x['kind'] == 'mutcall' and x['callee'].endswith('::push') and str(x.get('place', '')).endswith('.' + field)
+                   and _every_iteration(loop_ev, x) for x in inner)
+    return (f'every iteration pushes one element onto {field}', f)
+
+
+def _need_strict_increase(loop_ev, nid, inner):
+    for a in inner:
+        if a['kind'] == 'assign' and not a['fields'] and a.get('local') is not None:
+            H = T.root(('havoc', a['local'], nid))
+            if sites.implies_nonneg(T.sub(T.sub(a['value'], H), T.const(1)), a['pc']) and \
+                    any(T.mentions(c, T.unroot(H)) for x in inner if x['kind'] in ('ret', 'break') for c in x['pc']):
+                return True
+    return False
+
+
+def _need_field_step(field):
+    def f(loop_ev, nid, inner):
+        for a in inner:
+            if a['kind'] == 'assign' and tuple(a['fields']) == (field,) and _every_iteration(loop_ev, a):
+                H = ('f', ('havoc', a['local'], nid), field)
+                if T.as_lin(T.sub(a['value'], T.root(H))) == T.as_lin(T.const(1)):
+                    return True
+        return False
+    return (f'{field} grows by one on every iteration', f)
+
+
+def _need_assign_from(field_pos, callee):
+    def f(loop_ev, nid, inner):
+        exits = [x for x in inner if x['kind'] in ('ret', 'break')]
+        for a in inner:
+            if a['kind'] == 'assign' and len(a['fields']) == 1 and any(
+                    isinstance(y, tuple) and y and y[0] == 'call' and str(y[1]).endswith(callee) for y in T.subterms(a['value'])):
+                H = ('f', ('havoc', a['local'], nid), a['fields'][0])
+                # .. and it is the quantity the loop guard tests
+                if any(T.mentions(c, H) for x in exits for c in x['pc']):
+                    return True
+        return False
+    return (f'the quantity tested by the guard is re-computed by {callee} in the loop', f)
+
+
+def _need_exhaustion_exit(loop_ev, nid, inner):
+    return any(x['kind'] in ('ret', 'break') and any(
+        isinstance(c, tuple) and c and c[0] == 'not' and isinstance(c[1], tuple) and c[1][0] == 'matches' and
+        any(isinstance(y, tuple) and y and y[0] == 'nextof' for y in T.subterms(c[1])) for c in x['pc']) for x in inner)
+
+
+_DMIN = ('leaves the loop when the steps end; otherwise step_count = number_arrivals(step) is non-decreasing along the steps and unbounded',
+         [('the loop is left when the step iterator is exhausted', _need_exhaustion_exit), _need_assign_from(2, 'number_arrivals')])
+_XSTEPS = ('njobs grows by one per iteration and min_distance(njobs) is unbounded for a curve with a positive last delta-min',
+           [_need_field_step('njobs')])
+
 LOOP_VETTED = {
-    # function path -> reason the loop terminates (beyond the patterns recognised automatically)
-    'supply::SupplyBound::service_time': 'unbounded supply: provided_service grows without bound, so the missing service shrinks to 0 (contract of SupplyBound)',
-    'arrival::curve::Curve::extrapolate': 'extrapolate_next is >= the largest known distance plus the first entry; with a positive last delta-min the largest known distance grows strictly (well-formed curve)',
-    'arrival::curve::Curve::extrapolate_steps': 'each iteration pushes one element: jobs_in_largest_known_distance = len grows by one towards n',
-    'wcet::curve::Curve::extrapolate': 'each iteration pushes one element: len grows by one towards n - 1',
+    # function path -> (reason the loop terminates beyond the patterns recognised automatically,
+    #                   [(ingredient of that argument, predicate over the loop's events)]): the argument is only as good as
+    # the code it talks about, so each ingredient it names must be found in the loop
+    'supply::SupplyBound::service_time': (
+        'unbounded supply: provided_service grows without bound, so the missing service shrinks to 0 (contract of SupplyBound)',
+        [('the candidate time tested by the exit strictly increases on every other iteration', _need_strict_increase)]),
+    'arrival::curve::Curve::extrapolate': (
+        'extrapolate_next is >= the largest known distance plus the first entry; with a positive last delta-min the largest known distance grows strictly (well-formed curve)',
+        [_need_push('min_distance')]),
     # (the two `advance` helpers are private and evaluated in place: their loops are judged in `next`, their only caller --
     #  and stay judged there when the helper is folded into `next`; the helper paths cover a tree where they are public)
-    '<arrival::curve::ExtrapolatingCurve as arrival::ArrivalBound>::steps_iter::StepsIter::<\'a>::advance':
-        'njobs grows by one per iteration and min_distance(njobs) is unbounded for a curve with a positive last delta-min',
-    '<<arrival::curve::ExtrapolatingCurve as arrival::ArrivalBound>::steps_iter::StepsIter<\'a> as std::iter::Iterator>::next':
-        'njobs grows by one per iteration and min_distance(njobs) is unbounded for a curve with a positive last delta-min',
-    'arrival::dmin::DeltaMinIterator::<\'a, AB>::advance': 'leaves the loop when the steps end; otherwise step_count = number_arrivals(step) is non-decreasing along the steps and unbounded',
-    '<arrival::dmin::DeltaMinIterator<\'a, AB> as std::iter::Iterator>::next': 'leaves the loop when the steps end; otherwise step_count = number_arrivals(step) is non-decreasing along the steps and unbounded',
+    '<arrival::curve::ExtrapolatingCurve as arrival::ArrivalBound>::steps_iter::StepsIter::<\'a>::advance': _XSTEPS,
+    '<<arrival::curve::ExtrapolatingCurve as arrival::ArrivalBound>::steps_iter::StepsIter<\'a> as std::iter::Iterator>::next': _XSTEPS,
+    'arrival::dmin::DeltaMinIterator::<\'a, AB>::advance': _DMIN,
+    '<arrival::dmin::DeltaMinIterator<\'a, AB> as std::iter::Iterator>::next': _DMIN,
 }
 
 
@@ -256,11 +316,17 @@ def check_term(rep, crate, cfgname, known_loop_findings=()):
                 n_loops += 1
                 key = f'TERM-LOOP:{b.path}'
                 inner = [x for x in ev.events if x['depth'] == 0 and x['loops'] and x['loops'][-1] == nid]
-                why = progress_pattern(e, nid, inner)
+                why = progress_pattern(e, nid, inner) or push_progress(e, nid, inner)
                 if why:
                     rep.ok('TERM', key, where, f'[{cfgname}] {src} loop makes strict progress towards its guard: {why}', fn=b.path)
+                elif b.path in LOOP_VETTED and not [d for d, f in LOOP_VETTED[b.path][1] if not f(e, nid, inner)]:
+                    rep.ok('TERM', key, where, f'[{cfgname}] {src} loop terminates by a vetted argument: {LOOP_VETTED[b.path][0]}; its ingredients are present: '
+                           + '; '.join(d for d, _ in LOOP_VETTED[b.path][1]), fn=b.path)
                 elif b.path in LOOP_VETTED:
-                    rep.ok('TERM', key, where, f'[{cfgname}] {src} loop terminates by a vetted argument: {LOOP_VETTED[b.path]}', fn=b.path)
+                    missing = [d for d, f in LOOP_VETTED[b.path][1] if not f(e, nid, inner)]
+                    rep.bad('TERM', key, where, f'[{cfgname}] {src} loop no longer has what its vetted termination argument rests on: ' + '; '.join(missing),
+                            LOOP_VETTED[b.path][0], fn=b.path, direction='termination argument no longer applies',
+                            why='the vetted argument names a quantity that moves on every iteration; the loop does not move it any more')
                 else:
                     exits = [x for x in inner if x['kind'] in ('ret', 'break')]
                     fact = f'[{cfgname}] {src} loop with {len(exits)} exit(s): ' + '; '.join(
@@ -292,6 +358,32 @@ def check_term(rep, crate, cfgname, known_loop_findings=()):
                     else:
                         rep.ok('TERM', key, where, f'[{cfgname}] `{c}` on an iterator without an unbounded search', fn=b.path)
     return n_loops, n_consumers
+
+
+def push_progress(loop_ev, nid, inner):
+    """`while v.len() < n { v.push(..) }`: the loop is left once len(v) reaches a bound that does not move with the loop, every
+    iteration pushes onto v, and nothing else in the loop touches v"""
+    brk = [x for x in inner if x['kind'] in ('break', 'ret')]
+    pushes = [x for x in inner if x['kind'] == 'mutcall' and x['callee'].endswith('::push') and _every_iteration(loop_ev, x)]
+    for pu in pushes:
+        place = str(pu.get('place', ''))
+        if '.' not in place:
+            continue
+        fieldname = place.rsplit('.', 1)[1]
+        others = [x for x in inner if x is not pu and ((x['kind'] == 'mutcall' and str(x.get('place', '')) == place) or
+                                                     (x['kind'] == 'assign' and (not x['fields'] and x.get('local') == pu.get('target')
+                                                                                 or fieldname in x['fields'])))]
+        if others:
+            continue
+        for b in brk:
+            for c in b['pc']:
+                if isinstance(c, tuple) and c and c[0] == 'le0':
+                    rs = T.lin_roots(c[1])
+                    lens = [r for r in rs if isinstance(r, tuple) and r and r[0] == 'len' and T.unroot(r[1]) == ('f', ('havoc', pu.get('target'), nid), fieldname)]
+                    if len(lens) == 1 and rs[lens[0]] < 0 and not any(
+                            r != lens[0] and any(isinstance(y, tuple) and len(y) == 3 and y[0] == 'havoc' and y[2] == nid for y in T.subterms(r)) for r in rs):
+                        return f'every iteration pushes one element onto {place} and the loop is left once its length reaches a fixed bound'
+    return None
 
 
 def progress_pattern(loop_ev, nid, inner):
